@@ -135,23 +135,6 @@ func (e *encCase) tag() string {
 		o.FilterStrength, o.FilterSharpness, o.FilterType, o.SNSStrength, o.Preset, o.Pass) + fmt.Sprintf(".ts%d.psnr%g", o.TargetSize, o.TargetPSNR)
 }
 
-// withFeature adds a deviation class to the second field of a tag.
-func withFeature(tag, feat string) string {
-	f := strings.SplitN(tag, ":", 3)
-	if len(f) < 3 {
-		return tag + ":" + feat
-	}
-	if f[0] != "foreign" {
-		return f[0] + "+" + feat + ":" + f[1] + ":" + f[2]
-	}
-	if f[1] == "plain" {
-		f[1] = feat
-	} else {
-		f[1] += "+" + feat
-	}
-	return strings.Join(f, ":")
-}
-
 // Cases are buffered and written in two groups: first every case of a class in which Go and
 // the specification are expected to agree, then the cases of the deviation classes recorded in
 // KNOWN_FINDINGS.txt (bin/check turns only the first spec mismatches into violations, so known
@@ -196,17 +179,15 @@ func checkStream(c *Ctx, tag string, payload []byte, viaPublic bool) {
 	if pan != nil {
 		c.Violate("decoder-panic", fmt.Sprint(pan), map[string]any{"tag": tag, "payload": hex.EncodeToString(payload)})
 	}
-	// the same stream through the pure-Go kernels: where the dispatched (assembly) kernels
-	// give another picture, the stream is reported under the class "simd16" and the
-	// portable result is checked against the specification as a case of its own
+	// the same stream through the pure-Go kernels (what other architectures run): every stream that
+	// reaches this point is inside the property's domain, so both results are compared with the
+	// specification; a difference between the two is counted
 	var pline string
 	webp.VerifWithPortableDecoderKernels(func() { pline, _, _, _, _, _, _ = goDecode(payload) })
+	addCase("dec "+tag+" "+hex.EncodeToString(payload), line)
 	if pline != line {
 		c.Count("dispatched-kernels-differ-from-portable")
-		addCase("dec "+withFeature(tag, "simd16")+" "+hex.EncodeToString(payload), line)
 		addCase("dec portable:"+tag+" "+hex.EncodeToString(payload), pline)
-	} else {
-		addCase("dec "+tag+" "+hex.EncodeToString(payload), line)
 	}
 	c.Count("result:" + strings.SplitN(line, " ", 2)[0])
 	if viaPublic && strings.HasPrefix(line, "ok") {
@@ -217,7 +198,12 @@ func checkStream(c *Ctx, tag string, payload []byte, viaPublic bool) {
 			return
 		}
 		yc, ok := img.(*image.YCbCr)
-		if !ok || yc.Rect.Dx() != w || yc.Rect.Dy() != h {
+		if !ok {
+			// another image type: the harness cannot read the planes; not a statement about the samples
+			c.Count("observation:public-decode-returns-another-image-type")
+			return
+		}
+		if yc.Rect.Dx() != w || yc.Rect.Dy() != h {
 			c.Violate("public-decode-shape", fmt.Sprintf("%T %v", img, img.Bounds()), map[string]any{"tag": tag, "payload": hex.EncodeToString(payload)})
 			return
 		}
